@@ -268,6 +268,9 @@ HTTP_FUNCS = [
 ]
 
 
+DISPATCH_MARKS = ("implementation, method_name)(", "state.process(", "_write_stream_header(", "_enforce_response_budgets(")
+
+
 def _status_effects(body: list[ast.stmt]) -> list[str]:
     out: list[str] = []
     for st in body:
@@ -296,6 +299,12 @@ def _http_sites(repo: Path) -> list[tuple[str, list[tuple[list[str], list[str]]]
         tries.sort(key=lambda t: (t.lineno, t.col_offset))
         rows = []
         for t in tries:
+            # only the try statements an exception raised INSIDE DISPATCH can reach: their body (transitively) calls the
+            # implementation method, state.process(), the stream-header writer or the response-budget check.  The
+            # request-reading handlers (which classes mean 400) are C06/C15's subject and are left out on purpose.
+            body_src = "\n".join(ast.unparse(x) for x in t.body)
+            if not any(mark in body_src for mark in DISPATCH_MARKS):
+                continue
             for h in t.handlers:
                 eff = _status_effects(h.body)
                 if eff:
